@@ -179,7 +179,7 @@ Section Mono.
   Proof.
     unfold merge_step. destruct acc as [cur|e q]; cbn [bind]; [|reflexivity]. destruct kv as [k v].
     destruct (get_child cur k) as [c0|]; [|reflexivity].
-    set (c := if path_in (p ++ [k]) als then v else c0).
+    set (c := if (if path_in (p ++ [k]) als then same_obj c0 v else false) then v else c0).
     intro H. destruct (rec (p ++ [k]) c v) as [[n w]|e q] eqn:Er.
     - rewrite (Hrec (p ++ [k]) c v) by (rewrite Er; exact I). rewrite Er. reflexivity.
     - cbn [bind] in H. rewrite (Hrec (p ++ [k]) c v) by (rewrite Er; destruct e; try exact I; exact H). rewrite Er. reflexivity.
